@@ -1,19 +1,20 @@
-(** C01 — pairwise reconciliation converges to the join.  PARTIAL.
+(** C01 — pairwise reconciliation converges to the join.
 
-    Full statement (kept visible; not proved here):
-      for all reduced consistent A, B of one namespace, either initiator, every configuration
-      with 2 <= split_factor: the session terminates within 2(|A|+|B|)+4 messages and leaves both
-      sides holding [join A B].
-    What is proved, for every message (hostile ones included), store content and configuration:
+    Proved, for every pair of reduced sorted replicas without twin-len pairs, every split factor
+    >= 2, every maximal set size, every initiator: WHENEVER the session completes, both sides
+    hold exactly [join A B] ([C01_session_reaches_join]; the invariant is "every maximal entry of
+    the union is held by both sides or lies in the range of an honest part in flight", and the
+    split of a range is shown to cover the range for every range shape: plain, wrap-around,
+    whole ring). Also, for every message (hostile ones included), store content and
+    configuration:
       - soundness of every step: after processing a message a replica holds exactly
-        [reduce (valid values of the message ++ what it held)] — nothing else in the message
-        (ranges, fingerprints, flags, order of values) influences the content;
+        [reduce (valid values of the message ++ what it held)];
       - a replica answers a fingerprint that equals its own with silence (second session);
       - the two sides' sent/received counters mirror each other after any complete session.
-    Missing: delivery completeness (every entry of the join missing on one side is eventually
-    offered to it) and the termination measure; both are exercised by the correspondence runs
-    (final contents = join, message bound, silent second session on every generated pair). *)
-From ID Require Import Model.Ranger Model.Put Proofs.RangerFacts.
+    PARTIAL: that the session always completes within 2(|A|+|B|)+4 messages (termination
+    measure) is not proved here; it is exercised by the correspondence runs (message bound and
+    silent second session on every generated pair; a session that does not end is reported). *)
+From ID Require Import Base.Bytes Model.Entry Model.Ranger Model.Put Proofs.RangerFacts Proofs.ConvergeFacts Proofs.SplitFacts Proofs.SessionConverge.
 
 Theorem C01_step_content_partial : forall mss k status_of v S m,
   reduced S -> consistent (valid_values v (message_values m) ++ S) ->
@@ -42,3 +43,33 @@ Print Assumptions C01_step_content_partial.
 Print Assumptions C01_store_effect_any_instance.
 Print Assumptions C01_equal_fingerprint_silent.
 Print Assumptions C01_counts_mirror.
+
+(** convergence: a completed session leaves both sides with the join, in the same order *)
+Theorem C01_session_reaches_join : forall mss k v A B fuel A' B' tr,
+  2 <= k -> ssorted A -> ssorted B -> reduced A -> reduced B -> consistent (A ++ B) ->
+  (forall e, In e (A ++ B) -> v e MISSING = true) ->
+  list_session mss k v fuel A B (initial_message om_ops A) true [] = Some (A', B', tr) ->
+  (forall x, In x A' <-> In x (join A B)) /\ (forall x, In x B' <-> In x (join A B)) /\
+  ssorted A' /\ ssorted B'.
+Proof. exact list_session_converges. Qed.
+
+(** the fact about the split that convergence rests on: the sub-ranges cover the range *)
+Theorem C01_split_covers_range : forall k, 2 <= k -> forall S x y, ssorted S -> (2 <= length (rng S x y))%nat ->
+  forall z, range_contains x y z = true ->
+  exists r, In r (split_ranges k x y (rng S x y)) /\ range_contains (fst r) (snd r) z = true.
+Proof. exact split_covers. Qed.
+
+(** the hypotheses are satisfiable and the session does complete on a concrete pair with a
+    prefix deletion across range boundaries and a three-way split *)
+Example C01_session_example :
+  let A := [mkE 1 2 [97] 9 0 7; mkE 1 2 [99] 5 1 8; mkE 1 3 [97] 5 1 8] in
+  let B := [mkE 1 2 [97; 98] 5 1 8; mkE 1 2 [98] 5 1 8; mkE 1 2 [99] 6 1 9; mkE 1 3 [100] 5 1 8] in
+  match list_session 1 3 (fun _ _ => true) 20 A B (initial_message om_ops A) true [] with
+  | Some (A', B', tr) => A' = B' /\ length A' = 5%nat /\ (2 <= length tr)%nat
+  | None => False
+  end.
+Proof. vm_compute. repeat split; auto. Qed.
+
+Print Assumptions C01_session_reaches_join.
+Print Assumptions C01_split_covers_range.
+Print Assumptions C01_session_example.
